@@ -157,7 +157,7 @@ Definition lab_reqs (c : config) (rs : list req) (b : bool) (o : obs) : list req
       | _ => rs end
   | LOp (OpMap stars els nc noncoro ecb ccb g) =>
       match o_res o with
-      | RName n => rs ++ [mk_req (MMap stars) 0 false els nc default_w ecb ccb n b]
+      | RName n => rs ++ [mk_req (MMap stars) 0 [] els nc default_w ecb ccb n b]
       | _ => rs end
   | LOp (OpStart num) =>
       match o_res o with
@@ -231,7 +231,7 @@ Definition elem_ok (x : req) (el : nat) : bool :=
       | Some e => negb (e_bad e) && Nat.ltb el (r_pulls x)
       | None => false
       end
-  | _ => Nat.ltb el (r_num x) && negb (r_bad x)
+  | _ => Nat.ltb el (r_num x) && negb (nth el (r_bad x) false)
   end.
 
 Definition start_ok (rs : list req) (r el : nat) : bool :=
